@@ -148,3 +148,51 @@ def run(ctx):
     ctx.ob("R13.2", "separator", seps == [","] and val.count(",") >= 2 and all(ch not in val for ch in ";| "), site=A.where(fn),
            detail={"split_at": seps, "rDepends(a, b) emits": val},
            what="scan_deps splits dependency lists at %s but rDepends(a, b) emits \"%s\"" % (seps, val))
+
+    self_edge_obligation(ctx, u, "R13.6")
+
+
+def _inside13(root, node):
+    nid = node.get("id")
+    for x_ in A.walk(root):
+        if x_.get("id") == nid:
+            return True
+    return False
+
+
+def self_edge_obligation(ctx, u, rule):
+    ctx.rule(rule, "NO-SELF-EDGE: scan_deps records a dependency edge only under a test that the port depended on is not the message's own port (an enabling port may lie inside the sub-tree it enables; a node with an edge to itself is never released by the topological sort)")
+    fsd = u.function("scan_deps")
+    orig_id = u.params(fsd)[0]["id"]
+    pushes = [x for x in A.walk(u.body(fsd)) if x.get("kind") == "CXXMemberCallExpr" and A.strip_casts(A.kids(x)[0]).get("name") == "push_back" and
+              any(y.get("kind") == "MemberExpr" and y.get("name") == "dependees" for y in A.walk(A.kids(x)[0]))]
+    ctx.require(len(pushes) >= 1, rule + ": scan_deps no longer pushes into `dependees`")
+    for k6, px in enumerate(pushes):
+        guarded = False
+        child = px
+        for p_ in u.ancestors(px):
+            if p_.get("kind") == "IfStmt":
+                ks_ = A.kids(p_)
+                cond_ = ks_[0]
+                on_true = _inside13(ks_[1], child)
+                for y in A.walk(cond_):
+                    op = None
+                    if y.get("kind") == "BinaryOperator" and y.get("opcode") in ("!=", "=="):
+                        op, sides = y.get("opcode"), A.kids(y)
+                    elif y.get("kind") == "CXXOperatorCallExpr" and len(A.kids(y)) == 3 and re.search(r'operator(!=|==)', A.src(A.kids(y)[0])):
+                        op, sides = ("!=" if "!=" in A.src(A.kids(y)[0]) else "=="), A.kids(y)[1:]
+                    if op is None:
+                        continue
+                    refs_ = [{z["referencedDecl"]["id"] for z in A.walk(sd) if z.get("kind") == "DeclRefExpr" and z.get("referencedDecl")} for sd in sides]
+                    mentions_orig = [orig_id in r_ for r_ in refs_]
+                    if mentions_orig.count(True) == 1 and ((op == "!=" and on_true) or (op == "==" and not on_true)):
+                        other = refs_[mentions_orig.index(False)]
+                        if other and orig_id not in other:
+                            guarded = True
+            if p_.get("kind") in ("FunctionDecl",):
+                break
+            child = p_
+        ctx.ob(rule, "scan_deps: edge #%d" % k6, guarded, site=A.where(px),
+               key=rule + ":scan_deps:self-edge",
+               what="scan_deps records a dependency edge without excluding the message's own port: a port enabled by a toggle inside its own sub-tree makes that toggle wait for itself, and the line (with everything depending on it) is never dispatched")
+
